@@ -240,11 +240,24 @@ class Monitor:
             s = s + self.demand(tn, st, rn)
         return s
 
-    def fits(self, wid, strategy):
+    def fits(self, wid, strategy, at=None):
+        """Does `strategy` fit on the worker according to the monitor's ledger?  With `at`, residents whose
+        execution is over by that instant (start + runtime <= at) no longer count, even if their
+        TASK_FINISHED event has not been handled yet (resource-freeing events come first at equal times)."""
         pi, wk, caps = self.live[wid]
         conds = []
         for r, q in strategy.resources.resources:
-            conds.append(caps.get(r.name, 0) - self.used(wid, r.name) >= q)
+            if at is None:
+                u = self.used(wid, r.name)
+            else:
+                u = 0
+                for tn, st in self.ledger[wid].items():
+                    d = self.demand(tn, st, r.name)
+                    if self.starts[tn]:
+                        over = self.starts[tn][-1] + st.runtime.time <= at
+                        d = pysym.site(over, 0, d)
+                    u = u + d
+            conds.append(caps.get(r.name, 0) - u >= q)
         return sand(*conds)
 
     # ---- hooks
@@ -313,7 +326,7 @@ class Monitor:
                         st = event.placement.execution_strategy
                         cands = [wid for wid, (pi, wk, caps) in self.live.items() if self.W.pools[pi].id == pool_id
                                  and (event.placement.worker_id is None or wk.id == event.placement.worker_id)]
-                        canfit = sor(*[self.fits(wid, st) for wid in cands]) if st is not None else False
+                        canfit = sor(*[self.fits(wid, st, at=event.time.time) for wid in cands]) if st is not None else False
                         self.req("C03", "starts-at-chosen-time-when-possible", snot(canfit), f"{tn} deferred at its chosen time")
         self.check_capacity("event:" + str(event.event_type))
 
@@ -350,6 +363,10 @@ class Monitor:
         self.start_strategy[tn] = task.current_placement.execution_strategy if task.current_placement else None
         self.req("C02", "start-once", len(self.starts[tn]) == 1, tn)
         self.req("C02", "start-after-release", time >= task.release_time, tn)
+        rel0 = W.task_params[tn]["release"]
+        if not (isinstance(rel0, int) and rel0 == -1):
+            # the release time the workload declared for this task (Task.release() overwrites the attribute)
+            self.req("C02", "start-after-declared-release", time.time >= rel0, tn)
         rc = self.release_calls[tn]
         self.req("C02", "released-before-start", len(rc) >= 1, tn)
         tg = W.task_graphs[W.graph_of[tn]]
